@@ -10,17 +10,19 @@ For every test (set-up, call and tear-down phases together) one record per COMPL
          before the call), the molecule after the call (ffmap_util.project_mol / project_meta, plus the atom edges); if the same
          meta-molecule then goes through ApplyLinks.run_molecule and ApplyModifications.run_molecule (gen_params), the observed link
          applications (ffmap_trace.Recorder) and the final molecule are attached - exactly the record the library route of C01 makes.
-         Validated by spec/FFTraceX07.tla (= FFTrace + the domain verdict and the edge comparison).
+         Validated by spec/FFTraceX07.tla (= FFTrace + the domain verdict, the atom edges, the exclusion distance / exclude tags).
   links  every ApplyLinks.run_molecule call: abstract case (links_util.project_ff on the force field of the meta-molecule, residue
          graph with labels), every attempt seen by links_util.Recorder, the projected molecule after the call, the missing residue
          links before and after.  Validated by spec/LinksTrace.tla.
   top    every top-level Topology.from_gmx_topfile call: the include tree lexed into abstract lines (c08.lex_tree) and the projection
          of the returned object (c08.make_project_real), or the abort kind (c08.classify_exception).  Validated by TopReadTrace.
+         A top-level top_parser.read_topology call on a LIST OF LINES and a fresh Topology (test_top_parser, most fixtures) is the
+         reader's behaviour on a main file with these lines: written to a scratch file under X07_OUT, lexed and judged the same way.
   pre    every top-level Topology.preprocess call: abstract input (c09.abstract_from_topology, before the call) and the observed
          result (c09.observe).  A top-level gen_bonded_interactions call on a topology without valued macros is the bonded half
          alone (kind "bonded").  Validated by TypeResolveTrace.
 Calls that are pieces of these behaviours (apply_link_between_residues, apply_explicit_link, gen_pairs, replace_defines,
-convert_nonbond_to_sig_eps, read_topology, ApplyModifications.run_molecule on a molecule that was not mapped in the test) are counted.
+convert_nonbond_to_sig_eps, ApplyModifications.run_molecule on a molecule that was not mapped in the test) are counted.
 Inputs that an abstraction cannot express are marked "outside" with the reason (never dropped); further domain predicates are
 evaluated by TLC (FFMap.DomOK, Links.InDomain / NoTies / Stable, TopRead.InDomain, TypeResolve.InDomain / InDomainNB).
 Large payloads are written once per process and referred to by hash:  $X07_OUT/records-<pid>.ndjson.
@@ -40,11 +42,11 @@ _IN = {"map": 0, "links": 0, "top": 0, "pre": 0, "bonded": 0, "plugin": 0}
 _INSTALLED = []
 _SEEN = set()
 _TREES = {}          # resolved main path, mtime, size -> lexed tree (or the reason it is outside the domain)
-PROTEIN = ("GLY", "ALA", "CYS", "VAL", "LEU", "ILE", "MET", "PRO", "HYP", "ASN", "GLN", "ASP", "GLU", "THR", "SER", "LYS", "ARG", "HIS", "PHE",
-           "TYR", "TRP")
 
 
 class TestState:
+    __test__ = False           # not a test class (pytest collects names starting with Test from plugins it imports as modules only)
+
     def __init__(self, nodeid):
         self.nodeid = nodeid
         self.recs = []
@@ -131,6 +133,7 @@ def install():
         p["gattr"] = fu.project_meta(mm, p)
         idx = p.pop("_idx")
         p["edges"] = sorted(sorted((idx[a], idx[b])) for a, b in mm.molecule.edges)
+        p["ex"] = [int(mm.molecule.nodes[n].get("exclude", -1)) for n in mm.molecule.nodes]       # tag_exclusions; -1 = no tag
         return p
 
     @functools.wraps(p_map)
@@ -357,15 +360,15 @@ def install():
             _TREES[key] = ent
         return ent
 
-    def from_gmx_topfile(cls, path, name):
+    def from_gmx_topfile(cls, path, *args, **kwargs):
         T = CUR
         if T is None or _IN["top"] or _IN["plugin"]:
-            return o_top(cls, path, name)
+            return o_top(cls, path, *args, **kwargs)
         rec = {"kind": "top", "path": str(path)}
         top = failure = None
         _IN["top"] += 1
         try:
-            top = o_top(cls, path, name)
+            top = o_top(cls, path, *args, **kwargs)
         except RecursionError:
             raise
         except Exception as exc:
@@ -393,12 +396,76 @@ def install():
 
     o_read = tpp.read_topology
 
+    def fresh_topology(t):
+        try:
+            return not (t.defines or t.force_field.blocks or t.molecules or t.atom_types or t.nonbond_params or t.defaults
+                        or any(t.types[k] for k in t.types))
+        except Exception:
+            return False
+
+    import inspect
+    sig_read = inspect.signature(o_read)
+
     @functools.wraps(o_read)
-    def read_topology(*a, **k):
+    def read_topology(*args, **kwargs):
+        """a top-level read of a LIST OF LINES into a fresh Topology (test_top_parser, the fixtures of many other tests) is the reader's
+        behaviour on a main file with exactly these lines: the lines are written to a scratch file, lexed like any real file (sub-kind
+        "lines") and judged by TopReadTrace as well"""
         T = CUR
-        if T is not None and not _IN["top"] and not _IN["plugin"]:
+        if T is None or _IN["top"] or _IN["plugin"]:
+            return o_read(*args, **kwargs)
+        rec = {"kind": "top", "path": "<lines>", "sub": "lines"}
+        try:                                  # the recorder follows whatever signature the tree under test has
+            ba = sig_read.bind(*args, **kwargs)
+            ba.arguments["lines"] = lines = list(ba.arguments["lines"])
+            args, kwargs = ba.args, ba.kwargs
+            topology, cwdir, molecules = ba.arguments["topology"], ba.arguments.get("cwdir"), ba.arguments.get("molecules")
+        except Exception:
             T.piece("read_topology")
-        return o_read(*a, **k)
+            return o_read(*args, **kwargs)
+        try:
+            text = "".join(l if l.endswith("\n") else l + "\n" for l in lines)
+            if not fresh_topology(topology) or molecules is not None:
+                rec["outside"] = "lines read into a topology object that already holds content"
+            elif cwdir and any(l.strip().startswith("#include") for l in lines):
+                rec["outside"] = "#include in a list of lines that is read with a directory of its own (cwdir)"
+        except Exception as exc:
+            rec["unprojectable"] = "input: " + _err(exc)
+            text = None
+        out = failure = None
+        _IN["top"] += 1
+        try:
+            out = o_read(*args, **kwargs)
+        except RecursionError:
+            raise
+        except Exception as exc:
+            failure = exc
+        finally:
+            _IN["top"] -= 1
+        if "outside" not in rec and "unprojectable" not in rec and OUT:
+            _IN["plugin"] += 1
+            try:
+                d = os.path.join(OUT, "lines")
+                os.makedirs(d, exist_ok=True)
+                f = os.path.join(d, hashlib.sha1(text.encode()).hexdigest()[:16] + ".top")
+                if not os.path.exists(f):
+                    with open(f, "w") as fh:
+                        fh.write(text)
+                ent = lexed(f)
+                if "outside" in ent:
+                    rec["outside"] = ent["outside"]
+                elif failure is not None:
+                    rec["tree"], rec["obs"] = ent["tree"], c08.obs_json(c08.classify_exception(failure))
+                else:
+                    rec["tree"], rec["obs"] = ent["tree"], c08.obs_json(c08.make_project_real(ent["vals"])(topology))
+            except Exception as exc:
+                rec["unprojectable"] = _err(exc)
+            finally:
+                _IN["plugin"] -= 1
+        T.recs.append(rec)
+        if failure is not None:
+            raise failure
+        return out
     _patch(tpp, "read_topology", read_topology)
 
     # ------------------------------------------------------------------ preprocess
@@ -421,10 +488,10 @@ def install():
             rec["unprojectable"] = "input: " + _err(exc)
         return None
 
-    def run_typed(self, rec, T, func, ab, bonded_only):
+    def run_typed(self, rec, T, func, ab, bonded_only, a=(), k=None):
         status = "ok"
         try:
-            out = func(self)
+            out = func(self, *a, **(k or {}))
         except OSError as exc:
             status = "notype" if c09.NOTYPE_MSG in str(exc) else "exception"
             err = exc
@@ -451,10 +518,10 @@ def install():
         return out
 
     @functools.wraps(o_pre)
-    def preprocess(self):
+    def preprocess(self, *a, **k):
         T = CUR
         if T is None or _IN["pre"] or _IN["plugin"]:
-            return o_pre(self)
+            return o_pre(self, *a, **k)
         rec = {"kind": "pre"}
         _IN["plugin"] += 1
         try:
@@ -463,16 +530,16 @@ def install():
             _IN["plugin"] -= 1
         _IN["pre"] += 1
         try:
-            return run_typed(self, rec, T, o_pre, ab, False)
+            return run_typed(self, rec, T, o_pre, ab, False, a, k)
         finally:
             _IN["pre"] -= 1
     _patch(tp.Topology, "preprocess", preprocess)
 
     @functools.wraps(o_bonded)
-    def gen_bonded_interactions(self):
+    def gen_bonded_interactions(self, *a, **k):
         T = CUR
         if T is None or _IN["pre"] or _IN["plugin"]:
-            return o_bonded(self)
+            return o_bonded(self, *a, **k)
         rec = {"kind": "bonded"}
         _IN["plugin"] += 1
         try:
@@ -484,7 +551,7 @@ def install():
             _IN["plugin"] -= 1
         _IN["pre"] += 1
         try:
-            return run_typed(self, rec, T, o_bonded, ab, True)
+            return run_typed(self, rec, T, o_bonded, ab, True, a, k)
         finally:
             _IN["pre"] -= 1
     _patch(tp.Topology, "gen_bonded_interactions", gen_bonded_interactions)
@@ -547,7 +614,7 @@ def _dump(T):
             n["map"] = n.get("map", 0) + 1
         for rec in T.recs:
             head = {"kind": rec["kind"], "nodeid": T.nodeid}
-            for k in ("outside", "unprojectable", "path", "exception", "nlinks"):
+            for k in ("outside", "unprojectable", "path", "exception", "nlinks", "sub"):
                 if k in rec:
                     head[k] = rec[k]
             if rec["kind"] == "links" and "input" in rec:
